@@ -1,2 +1,133 @@
+// C15: proof of knowledge of a CL03 signature -- complete for every hidden set, bound to its statement
+use super::*;
+use crate::flat::*;
+use crate::ops::*;
 use crate::H;
-pub fn c15(_h: &mut H) {}
+use rug::Integer;
+use serde_json::Value;
+
+pub struct Pok {
+    pub msgs: Vec<Integer>,
+    pub hidden: Vec<usize>,
+    pub revealed: Vec<Integer>,
+    pub sig: Value,
+    pub pok: Value,
+    pub tape: Vec<(String, Integer)>,
+}
+
+pub fn pokverify(h: &mut H, pok: &Value, cpk: &Value, pk: &Value, bases: &[Integer], revealed: &[Integer], hidden: &[usize], n: usize) -> Out {
+    call(h, "cl.pokverify", vec![pok.clone(), cpk.clone(), pk.clone(), ivs(bases), ivs(revealed), uv(hidden), serde_json::json!(n)], vec![]).0
+}
+
+pub fn make_pok(h: &mut H, k: &Keys, cpk: &Value, n: usize, hidden: &[usize], msgs: Vec<Integer>) -> Option<Pok> {
+    let bases = k.bases[..n].to_vec();
+    let sig = signm(h, k, &bases, &msgs)?;
+    let (p, tape) = call(h, "cl.pokgen", vec![sig.clone(), cpk.clone(), k.pk.clone(), ivs(&bases), ivs(&msgs), uv(hidden)], vec![]);
+    let pok = p.ok()?.clone();
+    let revealed: Vec<Integer> = (0..n).filter(|i| !hidden.contains(i)).map(|i| msgs[i].clone()).collect();
+    Some(Pok { msgs, hidden: hidden.to_vec(), revealed, sig, pok, tape })
+}
+
+pub fn c15(h: &mut H) {
+    let p = params(h.suite);
+    let nmax = if h.thorough { 5 } else { 3 };
+    let k = keygen(h, nmax);
+    let k2 = keygen(h, nmax);
+    let (ck, _) = cpk(h, Some(&k.n_mod), nmax);
+    let (ck2, _) = cpk(h, Some(&k.n_mod), nmax);
+    let mut leaf_budget: i64 = if h.thorough { 600 } else { 40 };
+    for n in 1..=nmax {
+        let bases = k.bases[..n].to_vec();
+        for hidden in subsets(n) {
+            if !h.thorough && n == 3 && hidden.len() == 2 && hidden[0] == 1 {
+                continue;
+            }
+            h.stat(&format!("C15.n={}.U={}", n, hidden.len()));
+            let msgs = if (n + hidden.len()) % 2 == 0 { attrs_boundary(h, n, p.lm) } else { attrs(h, n) };
+            let pk = match make_pok(h, &k, &ck, n, &hidden, msgs) {
+                Some(x) => x,
+                None => {
+                    h.expect(false, "C15.gen", "proof_gen panicked on a valid signature", &[h.last()]);
+                    continue;
+                }
+            };
+            let gid = h.last();
+            let v = pokverify(h, &pk.pok, &ck, &k.pk, &bases, &pk.revealed, &hidden, n);
+            h.expect(v.is_true(), "C15.verify", "proof_verify(proof_gen(..)) != true", &[gid, h.last()]);
+            let reject = |h: &mut H, class: &str, pok: &Value, cpk_: &Value, pk_: &Value, bs: &[Integer], rev: &[Integer], hid: &[usize], nn: usize| {
+                h.stat(&format!("C15.neg.{}", class));
+                let v = pokverify(h, pok, cpk_, pk_, bs, rev, hid, nn);
+                // a refusal by panic also counts as not verifying
+                h.expect(!v.is_true(), &format!("C15.{}", class), "proof_verify accepted a different statement or an altered proof", &[h.last()]);
+            };
+            for i in 0..pk.revealed.len() {
+                let mut r = pk.revealed.clone();
+                r[i] += 1;
+                reject(h, "revealed_plus_1", &pk.pok, &ck, &k.pk, &bases, &r, &hidden, n);
+                if i + 1 < r.len() && pk.revealed[i] != pk.revealed[i + 1] {
+                    let mut r = pk.revealed.clone();
+                    r.swap(i, i + 1);
+                    reject(h, "revealed_swap", &pk.pok, &ck, &k.pk, &bases, &r, &hidden, n);
+                }
+            }
+            reject(h, "other_signer_key", &pk.pok, &ck, &k2.pk, &bases, &pk.revealed, &hidden, n);
+            reject(h, "other_bases", &pk.pok, &ck, &k.pk, &k2.bases[..n].to_vec(), &pk.revealed, &hidden, n);
+            reject(h, "other_commitment_key", &pk.pok, &ck2, &k.pk, &bases, &pk.revealed, &hidden, n);
+            if n > 1 {
+                let mut rb = bases.clone();
+                rb.rotate_left(1);
+                reject(h, "bases_rotated", &pk.pok, &ck, &k.pk, &rb, &pk.revealed, &hidden, n);
+            }
+            // another hidden set of the same size (revealed list kept as is)
+            if hidden.len() < n && !hidden.is_empty() {
+                let mut u2 = hidden.clone();
+                u2[0] = (0..n).find(|i| !hidden.contains(i)).unwrap();
+                u2.sort();
+                reject(h, "other_hidden_set", &pk.pok, &ck, &k.pk, &bases, &pk.revealed, &u2, n);
+            }
+            // attribute count
+            if n < nmax {
+                let mut r = pk.revealed.clone();
+                // (an extra attribute equal to 0 is the same statement in CL03: a^0 = 1 -- DESIGN O7)
+                r.push(Integer::from(7));
+                reject(h, "n_plus_1", &pk.pok, &ck, &k.pk, &k.bases[..n + 1].to_vec(), &r, &hidden, n + 1);
+            }
+            if n > 1 && !pk.revealed.is_empty() && !hidden.contains(&(n - 1)) && pk.revealed[pk.revealed.len() - 1] != 0 {
+                reject(h, "n_minus_1", &pk.pok, &ck, &k.pk, &bases, &pk.revealed[..pk.revealed.len() - 1].to_vec(), &hidden, n - 1);
+            }
+            // single-field perturbations of every integer of the serialized proof
+            let mut lv = Vec::new();
+            leaves(&pk.pok, String::new(), &mut lv);
+            let picks: Vec<usize> = if h.thorough && n <= 2 { (0..lv.len()).collect() } else {
+                (0..6).map(|_| h.rng.below(lv.len() as u64) as usize).collect()
+            };
+            for li in picks {
+                if leaf_budget <= 0 { break; }
+                let (path, old) = lv[li].clone();
+                if path.ends_with(".randomness") { continue; }
+                for edit in 0..3 {
+                    if !h.thorough && edit != (li % 3) { continue; }
+                    if edit == 2 && old == 0 { continue; }
+                    leaf_budget -= 1;
+                    let mut z = pk.pok.clone();
+                    let mut cnt = 0usize;
+                    let f: Box<dyn Fn(&Integer) -> Integer> = match edit {
+                        0 => Box::new(|x| Integer::from(x + 1u32)),
+                        1 => Box::new(|x| Integer::from(x - 1u32)),
+                        _ => Box::new(|_| Integer::from(0)),
+                    };
+                    map_leaf(&mut z, &mut cnt, li, &*f);
+                    h.stat("C15.leaf_edit");
+                    let v = pokverify(h, &z, &ck, &k.pk, &bases, &pk.revealed, &hidden, n);
+                    h.expect(!v.is_true(), "C15.leaf_edit", &format!("proof_verify accepted a proof with field {} altered ({})", path, ["+1", "-1", "zero"][edit]), &[h.last()]);
+                }
+            }
+            // swap two sibling responses
+            let mut z = pk.pok.clone();
+            let a = z["spok"]["s_1"].clone();
+            z["spok"]["s_1"] = z["spok"]["s_3"].clone();
+            z["spok"]["s_3"] = a;
+            reject(h, "leaf_swap", &z, &ck, &k.pk, &bases, &pk.revealed, &hidden, n);
+        }
+    }
+}
